@@ -61,12 +61,14 @@ SpecCpu(v, S) ==
 
 (* amoco vs processor; returns [bad |-> set of names, unk |-> set of names] *)
 Mask32(l) == <<l[1], l[2]>>
-RegCmp(a, c, mode) ==     \* "eq" | "ne" | "unk"
+RegCmp(a, c, mode) ==     \* "eq" | "ne" | "unk";  x86: only the low 32 bits are compared
   IF Len(a) = 0 THEN "unk"
-  ELSE IF mode = "x86" THEN (IF Len(a) >= 2 /\ Mask32(a) = Mask32(c) THEN "eq" ELSE "ne")
-  ELSE IF Len(a) = 4 THEN (IF a = c THEN "eq" ELSE "ne")
-  ELSE LET val == <<a[1], a[2], a[3], a[4]>>  msk == <<a[5], a[6], a[7], a[8]>> IN
-       IF ToLimbs(And(FromLimbs(c, 64), FromLimbs(msk, 64))) = val THEN "unk" ELSE "ne"
+  ELSE IF Len(a) = 4 THEN (IF (IF mode = "x86" THEN Mask32(a) = Mask32(c) ELSE a = c) THEN "eq" ELSE "ne")
+  ELSE LET w == IF mode = "x86" THEN 32 ELSE 64
+           val == Trunc(FromLimbs(<<a[1], a[2], a[3], a[4]>>, 64), w)
+           msk == Trunc(FromLimbs(<<a[5], a[6], a[7], a[8]>>, 64), w)
+       IN \* partly known: the known bits must agree; the register as a whole counts as unknown
+          IF And(Trunc(FromLimbs(c, 64), w), msk) = val THEN "unk" ELSE "ne"
 AmCpu(v, a, S) ==
   LET c == v.cpu
       regs == IF a.mode = "x86" THEN 1..8 ELSE 1..16
